@@ -14,11 +14,15 @@ pub mod extm;
 pub mod dmodels;
 #[cfg(all(kani, feature = "rx"))]
 pub mod rx;
+#[cfg(all(kani, feature = "rx"))]
+pub mod rxl;
 
 #[cfg(all(kani, feature = "c01"))]
 pub mod c01;
 #[cfg(all(kani, feature = "c02"))]
 pub mod c02;
+#[cfg(all(kani, feature = "c03"))]
+pub mod c03b;
 #[cfg(all(kani, feature = "c04"))]
 pub mod c04;
 #[cfg(all(kani, feature = "c05"))]
